@@ -662,11 +662,309 @@ def _replay_nematic(case, clause, model, seed):
     return {"ran": True, "failed": False, "searched": 60}
 
 
-UNITS = [Gyration(), S2Integral(), Nematic()]
+# =====================================================================================================
+# minimum image (callee contract of utils.pbc.remove_pbc, property C02) as an opaque function of (row, cell, mask)
+
+_PBC = {}
+
+
+def pbc_component(c, row, Hflat, pflat):
+    """component c of remove_pbc(row, H, ppp): the C02 contract value, used here only as a function of its arguments"""
+    import z3
+    d = len(row)
+    key = (d, c)
+    if key not in _PBC:
+        _PBC[key] = z3.Function(f"MINIMG{d}_{c}", *([z3.RealSort()] * (d + d * d + d)), z3.RealSort())
+    return sv.SV(_PBC[key](*[sv.zr(sv.norm(x)) for x in list(row) + list(Hflat) + list(pflat)]))
+
+
+def pbc_summary(interp, args, kwargs):
+    from pyvc.lib import _arr
+    RIJ, H, ppp = [_arr(x, interp) for x in args[:3]]
+    d = A.conc_dim(RIJ.shape[-1])
+    Hl = [x for r in A.to_list(H) for x in r]
+    pl = A.to_list(ppp)
+    rr = RIJ.reader()
+    if RIJ.ndim != 2:
+        raise sv.EngineError("remove_pbc summary: (n, d) input expected")
+    return A.new_arr(RIJ.shape, lambda idx: pbc_component(idx[1], [rr((idx[0], c)) for c in range(d)], Hl, pl), "float")
+
+
+def min_image(acc, ppp_list, d, n, i, j):
+    """D(i, j) in frame n: remove_pbc(r_j - r_i, H_n, ppp)"""
+    row = [sv.sub(acc["pos"](n, j, c), acc["pos"](n, i, c)) for c in range(d)]
+    Hl = [acc["H"](n, a, b) for a in range(d) for b in range(d)]
+    return [pbc_component(c, row, Hl, ppp_list) for c in range(d)]
+
+
+def vnorm(v, M=sv):
+    acc = 0
+    for x in v:
+        acc = M.add(acc, M.mul(x, x))
+    return M.sqrt(acc)
+
+
+# =====================================================================================================
+# tetrahedral order
+
+
+def tetra_value(cosines, M=sv):
+    """1 - (3/32) sum_{j<k} (cos psi_jk + 1/3)^2 over the six pairs of the four nearest neighbours"""
+    acc = 0
+    for c in cosines:
+        t = M.add(c, M.div(1, 3))
+        acc = M.add(acc, M.mul(t, t))
+    return M.sub(1, M.mul(M.div(3, 32), acc))
+
+
+class Tetrahedral(Unit):
+    module = GEO
+    qualname = "q8_tetrahedral"
+    prop = "C17"
+    timeout = 10
+    solver_opts = {"uf_abstraction": True}
+    summaries = {"PyMatterSim.utils.pbc.remove_pbc": pbc_summary}
+
+    def setup(self, ctx, case):
+        from pyvc.libext import C17 as LX
+        del LX.CALLS[:]
+        d = 3
+        T, N = ctx.int("T"), ctx.int("N")
+        ctx.assume(T >= 1)
+        ctx.assume(N >= 5)          # the property's quantifier: all 3-D configurations with N >= 5
+        snaps, acc = make_snapshots(ctx, "trj", T, N, d)
+        ppp = ctx.array("ppp", (3,), "int", origin="argument ppp")
+        pl = [ppp.get((c,)) for c in range(3)]
+        for x in pl:
+            ctx.assume(sv.or_(sv.cmp("==", x, 0), sv.cmp("==", x, 1)))
+        n0, i0, m0 = ctx.int("n0"), ctx.int("i0"), ctx.int("m0")
+        inp = dict(d=d, T=T, N=N, acc=acc, n0=n0, i0=i0, m0=m0, pl=pl, ppp=ppp)
+        return [snaps], dict(ppp=ppp, outputfile=""), inp
+
+    def clause_names(self, case):
+        return ["result-shape=[nsnapshots,nparticle]", "value=1-(3/32)*sum_{j<k}(cos psi_jk+1/3)^2-over-the-selected-four",
+                "selected-four-are-distinct-particles-other-than-i", "selected-four-are-the-four-nearest(no-other-particle-is-closer)",
+                "lemma:all-six-angles-tetrahedral(cos=-1/3)=>value=1", "frame:trajectory-not-written"]
+
+    def ensures(self, ctx, case, inp, out):
+        from pyvc.libext import C17 as LX
+        d, T, N, n0, i0, m0, acc, pl = inp["d"], inp["T"], inp["N"], inp["n0"], inp["i0"], inp["m0"], inp["acc"], inp["pl"]
+        res = out.value
+        ok = isinstance(res, A.Arr) and res.ndim == 2
+        yield "result-shape=[nsnapshots,nparticle]", (sv.and_(sv.cmp("==", res.shape[0], T), sv.cmp("==", res.shape[1], N)) if ok else False)
+        yield "frame:trajectory-not-written", len(input_stores(out, acc["input_sids"]) + [e for e in out.state.events if e[0] == "store" and e[1] == inp["ppp"].sid]) == 0
+        cs = [sv.real(f"c{k}") for k in range(6)]
+        yield ("lemma:all-six-angles-tetrahedral(cos=-1/3)=>value=1",
+               sv.implies(sv.and_(*[sv.cmp("==", c, sv.div(-1, 3)) for c in cs]), sv.cmp("==", tetra_value(cs), 1)))
+        kths = sorted(set(LX.CALLS))
+        if not ok or len(kths) != 1:
+            yield "value=1-(3/32)*sum_{j<k}(cos psi_jk+1/3)^2-over-the-selected-four", False
+            return
+        inr = sv.and_(sv.cmp(">=", n0, 0), sv.cmp("<", n0, T), sv.cmp(">=", i0, 0), sv.cmp("<", i0, N))
+        D = lambda j: min_image(acc, pl, d, n0, i0, j)
+        dist = lambda j: vnorm(D(j))
+        # witnesses: the assumed argpartition contract instantiated on the SPEC distances of particle i0 in frame n0
+        ap = LX.argpartition_terms(dist, N, kths[0])
+        P = ap["first"]
+        sel = A.compact(P, [sv.cmp("!=", p, i0) for p in P])       # the selected neighbours: those of the first kth+1 that are not i0
+        a = [sel.fn(j) for j in range(4)]
+        cosines = []
+        for j in range(3):
+            for k in range(j + 1, 4):
+                Dj, Dk = D(a[j]), D(a[k])
+                cosines.append(sv.div(_sum([sv.mul(x, y) for x, y in zip(Dj, Dk)]), sv.mul(dist(a[j]), dist(a[k]))))
+        facts = list(ap["facts"])
+        yield ("value=1-(3/32)*sum_{j<k}(cos psi_jk+1/3)^2-over-the-selected-four",
+               sv.implies(inr, sv.cmp("==", res.get((n0, i0)), tetra_value(cosines))), {"assume": facts})
+        # no two particles coincide (cos psi is undefined otherwise): instances at the indices the clauses talk about;
+        # remove_pbc(0) = 0 (C02 clause (a) at r = 0)
+        zero = sv.and_(*[sv.cmp("==", x, 0) for x in D(i0)])
+        apart = lambda j: sv.implies(sv.cmp("!=", j, i0), sv.cmp(">", dist(j), 0))
+        pre = facts + [zero, sv.cmp("==", dist(i0), 0)] + [apart(p) for p in P] + [apart(m0), ap["others"](i0), ap["others"](m0)]
+        yield ("selected-four-are-distinct-particles-other-than-i",
+               sv.implies(inr, sv.and_(sv.cmp(">=", sel.length, 4), *([sv.cmp("!=", x, i0) for x in a] + [sv.and_(sv.cmp(">=", x, 0), sv.cmp("<", x, N)) for x in a]
+                                                                      + [sv.cmp("!=", a[j], a[k]) for j in range(4) for k in range(j)]))),
+               {"assume": pre})
+        other = sv.and_(sv.cmp(">=", m0, 0), sv.cmp("<", m0, N), sv.cmp("!=", m0, i0), *[sv.cmp("!=", m0, x) for x in a])
+        # generalise the distances: the statement is about the order of the numbers dist(.)
+        goal = sv.implies(sv.and_(inr, other, *pre), sv.and_(*[sv.cmp(">=", dist(m0), dist(x)) for x in P]))
+        yield "selected-four-are-the-four-nearest(no-other-particle-is-closer)", sv.implies(sv.and_(inr, other), sv.and_(*[sv.cmp(">=", dist(m0), dist(x)) for x in a])), {"assume": pre}
+
+    def replay(self, case, clause, model, seed):
+        return _replay_tetra(case, clause, model, seed)
+
+
+def _replay_tetra(case, clause, model, seed):
+    import importlib
+    import itertools
+    import math
+    import random
+    import numpy as np
+    mod = importlib.import_module(GEO)
+    ru = importlib.import_module(RU)
+    rng = random.Random(seed)
+
+    def mk(frames, L):
+        fs = [ru.SingleSnapshot(timestep=n, nparticle=len(P), particle_type=np.ones(len(P), dtype=int), positions=np.array(P, dtype=float),
+                                boxlength=np.array(L, dtype=float), boxbounds=np.array([[0.0, x] for x in L]), realbounds=None,
+                                hmatrix=np.diag(np.array(L, dtype=float))) for n, P in enumerate(frames)]
+        return ru.Snapshots(nsnapshots=len(fs), snapshots=fs)
+
+    def reference(P, L, ppp):
+        P = np.array(P, dtype=float)
+        N = len(P)
+        out = np.zeros(N)
+        for i in range(N):
+            Dv = P - P[i]
+            for c in range(3):
+                if ppp[c]:
+                    Dv[:, c] -= L[c] * np.round(Dv[:, c] / L[c])
+            dist = np.sqrt((Dv ** 2).sum(axis=1))
+            order = sorted((j for j in range(N) if j != i), key=lambda j: dist[j])[:4]
+            s = 0.0
+            for j, k in itertools.combinations(order, 2):
+                s += (float(Dv[j] @ Dv[k]) / (dist[j] * dist[k]) + 1.0 / 3) ** 2
+            out[i] = 1 - 3.0 / 32 * s
+        return out
+    cases = []
+    # perfect tetrahedral coordination: centre + 4 vertices of a regular tetrahedron (N = 5, the smallest documented size)
+    c = np.array([10.0, 10.0, 10.0])
+    v = np.array([[1, 1, 1], [1, -1, -1], [-1, 1, -1], [-1, -1, 1]], float)
+    cases.append(([np.vstack([c, c + v]).tolist()], [40.0, 40.0, 40.0], [1, 1, 1], {0: 1.0}))
+    cases.append(([np.vstack([c, c + v, [[31.0, 3.0, 4.0]]]).tolist()], [40.0, 40.0, 40.0], [1, 1, 1], {0: 1.0}))
+    Nm = model.get("N") if isinstance(model.get("N"), int) else None
+    for k in range(40):
+        N = rng.choice([5, 5, 6, 7, 9, 14]) if not (k == 0 and Nm) else max(5, min(Nm, 30))
+        T = rng.choice([1, 2])
+        L = [rng.uniform(4, 9) for _ in range(3)]
+        frames = [[[rng.uniform(0, L[cc]) for cc in range(3)] for _ in range(N)] for _ in range(T)]
+        cases.append((frames, L, [rng.randint(0, 1) for _ in range(3)] if k % 3 else [1, 1, 1], {}))
+    for n_case, (frames, L, ppp, exact) in enumerate(cases):
+        snaps = mk(frames, L)
+        keep = [np.array(P, dtype=float).copy() for P in frames]
+        try:
+            got = np.asarray(mod.q8_tetrahedral(snaps, ppp=np.array(ppp)))
+        except Exception as e:
+            return {"ran": True, "failed": True, "searched": n_case + 1, "inputs": {"positions": frames, "boxlength": L, "ppp": ppp, "N": len(frames[0])},
+                    "detail": f"raises {type(e).__name__}: {e}"}
+        if got.shape != (len(frames), len(frames[0])):
+            return {"ran": True, "failed": True, "inputs": {"positions": frames}, "detail": f"result shape {got.shape}"}
+        for n, P in enumerate(frames):
+            want = reference(P, L, ppp)
+            for i in range(len(P)):
+                w = exact.get(i, want[i]) if n == 0 else want[i]
+                if not abs(got[n, i] - w) <= 1e-9 * (1 + abs(w)):
+                    return {"ran": True, "failed": True, "searched": n_case + 1, "inputs": {"positions": frames, "boxlength": L, "ppp": ppp, "frame": n, "particle": i},
+                            "detail": f"q_tetra = {got[n, i]}, definition over the four nearest neighbours gives {w}"}
+            if not np.array_equal(keep[n], snaps.snapshots[n].positions):
+                return {"ran": True, "failed": True, "inputs": {"positions": frames}, "detail": "positions of the trajectory were modified"}
+    return {"ran": True, "failed": False, "searched": len(cases)}
+
+
+UNITS = [Gyration(), S2Integral(), Nematic(), Tetrahedral()]
+
+HELPERS = [("PyMatterSim.utils.funcs", "grid_gaussian"), ("PyMatterSim.utils.funcs", "kronecker")]
+
+
+def _function_node(repo, module, qualname):
+    path = os.path.join(repo, *module.split(".")) + ".py"
+    with open(path) as f:
+        tree = ast.parse(f.read())
+    parts = qualname.split(".")
+    body = tree.body
+    node = None
+    for p in parts:
+        node = next((n for n in body if isinstance(n, (ast.FunctionDef, ast.ClassDef)) and n.name == p), None)
+        if node is None:
+            return None, tree
+        body = node.body
+    return node, tree
+
+
+def numpy_names_used(repo, module, qualname):
+    """dotted numpy entry points (np.x, np.linalg.x) referenced in the function, and module-level names the function
+    uses that are bound by `from numpy import ...` at import time"""
+    node, tree = _function_node(repo, module, qualname)
+    if node is None:
+        return []
+    out = set()
+    for n in ast.walk(node):
+        if isinstance(n, ast.Attribute):
+            chain = [n.attr]
+            v = n.value
+            while isinstance(v, ast.Attribute):
+                chain.append(v.attr)
+                v = v.value
+            if isinstance(v, ast.Name) and v.id == "np":
+                chain = list(reversed(chain))
+                if chain[0] in ("linalg", "random", "fft") and len(chain) >= 2:
+                    out.add("np." + ".".join(chain[:2]))
+                else:
+                    out.add("np." + chain[0])
+    return sorted(out)
+
+
+def existence_probe(repo):
+    """every numpy entry point a function under contract calls must exist in the installed numpy (DESIGN I.7 (a)): the
+    engine's library table has a contract for np.trapz, the interpreter that runs the package may not have the function"""
+    targets = [(u.module, u.qualname) for u in UNITS] + HELPERS
+    seen, per = set(), {}
+    for m, q in targets:
+        if (m, q) in seen:
+            continue
+        seen.add((m, q))
+        per[(m, q)] = numpy_names_used(repo, m, q)
+    names = sorted({x for v in per.values() for x in v})
+    code = ("import json, numpy as np\nres = {}\nfor n in %r:\n    o = np\n    ok = True\n    for p in n.split('.')[1:]:\n"
+            "        ok = ok and hasattr(o, p)\n        o = getattr(o, p, None)\n    res[n] = bool(ok)\nprint('PROBE ' + json.dumps(res))" % (names,))
+    py = os.environ.get("PYVC_REPLAY_PYTHON", "/venv/bin/python")
+    res = {}
+    try:
+        r = subprocess.run([py, "-W", "ignore", "-c", code], capture_output=True, text=True, timeout=120, cwd="/tmp")
+        for line in r.stdout.splitlines():
+            if line.startswith("PROBE "):
+                res = json.loads(line[6:])
+    except Exception:  # noqa
+        res = {}
+    obs = []
+    for (m, q), used in per.items():
+        missing = [n for n in used if res.get(n) is False]
+        unknown = [n for n in used if n not in res]
+        st = "REFUTED" if missing else ("UNDECIDED" if unknown else "PROVED")
+        ob = {"name": f"{q}:numpy-entry-points-exist-in-the-installed-numpy", "status": st, "ms": 0.0, "backends": ["cpython-probe"], "queries": 1,
+              "replayable": True}
+        if st != "PROVED":
+            ob["failed"] = [{"status": st, "backend": "cpython-probe", "reason": "missing in the installed numpy: " + ", ".join(missing or unknown),
+                             "model": {"module": m, "qualname": q, "missing": missing}}]
+        obs.append(ob)
+    return obs
+
+
+def replay_extra(rec):
+    """an entry point that does not exist: run the real function (first case of its unit) and see it raise"""
+    model = rec.get("model") or {}
+    q, m = model.get("qualname"), model.get("module")
+    for u in UNITS:
+        if u.qualname == q and u.module == m:
+            r = u.replay(u.cases()[0], "", {}, int(rec.get("seed") or 0))
+            r["note"] = f"numpy entry points missing: {model.get('missing')}"
+            return r
+    import importlib
+    import numpy as np
+    missing = []
+    for n in model.get("missing") or []:
+        o = np
+        for p in n.split(".")[1:]:
+            o = getattr(o, p, None)
+        if o is None:
+            missing.append(n)
+    return {"ran": True, "failed": bool(missing), "detail": f"{m}.{q} references {missing}, absent from numpy {np.__version__}"}
+
 
 def extra_checks(tier, seed, repo):
     from pyvc.vc import prove_lemmas
     obs = prove_lemmas("C17", gyration_lemmas())
+    obs += existence_probe(repo)
     return {"obligations": obs}
 
 
